@@ -15,6 +15,7 @@ package nets
 //@ func [C20,C18] IntToIP
 //@   ensures [C20] len(result) == 4 && val(result) == i
 //@   ensures fresh(result)
+//@   ensures ipString(result) == ipv4str(i) && ipv4val(ipv4str(i)) == i
 //@   modifies fresh elemsof(byte)
 
 //@ func [C20,C18] (IPRange).Size
